@@ -10,6 +10,8 @@ func p(kv ...interface{}) map[string]int64 {
 	return m
 }
 
+const stallBd = "one step from an arbitrary tripped or recovering breaker (deadline and next-check instant symbolic on either side of now, durations symbolic in [1,2^40] ns): an arriving request is held up at any one scheduling point (mutex acquire/release, the log sink, the backend) while the clock moves on, optionally another request is served, and an earlier request completes with a symbolic condition outcome; then it resumes: shielding, legal transitions only, a completed trip stands, effects once per transition"
+
 func jobsFor(prop, tier string) []*Job {
 	thorough := tier == "thorough"
 	var js []*Job
@@ -98,6 +100,10 @@ func jobsFor(prop, tier string) []*Job {
 				add(&Job{Name: fmt.Sprintf("O6-limiter-oversize-and-shapes/k=2,shapes=%d", sh), Pkg: "ratelimit", Harness: "VerifC03Shapes", Grid: 1e9, Params: p("k", 2, "maxgap", 3, "t0span", 3, "shapes", sh), MapPermMax: 2, MapPermFns: []string{"TokenBucketSet).Consume"}, TimeoutS: 120,
 					Bounds: shapesBd})
 			}
+			for per := 0; per < 2; per++ {
+				add(&Job{Name: fmt.Sprintf("O7-rate-unit/period=%s", []string{"1s", "1min"}[per]), Pkg: "ratelimit", Harness: "VerifC13RateUnit", Params: p("period", per), TimeoutS: 120, MapPermMax: 1,
+					Bounds: "API level (NewRateSet/NewTokenBucketSet, optionally reconfigured by Update from another average): period " + []string{"1 s", "1 min"}[per] + ", average from {1,2,3,7,10,1000}, burst symbolic in [1,2^10]; drained, then either idle for any D <= 2^50 ns with D*average >= burst*period and ask for the burst, or ask for 1..burst at once, get a delay (at most amount x period/average) and retry after it plus any extra wait <= 2^40 ns"})
+			}
 			add(&Job{Name: "O1O2O4-bucket/tpt=symbolic", Pkg: "ratelimit", Harness: "VerifC13Bucket", Params: p("tpt", 0), SkipInc: true, TimeoutS: 120, IncMs: 500, Inductive: true,
 				Bounds: fmt.Sprintf(bd, "symbolic in [1,2^36] ns/token")})
 			add(&Job{Name: "O1O4-set2", Pkg: "ratelimit", Harness: "VerifC13Set", Params: p("tpt", 0), SkipInc: true, TimeoutS: 120, IncMs: 500, MapPermMax: 2, Inductive: true,
@@ -144,6 +150,7 @@ func jobsFor(prop, tier string) []*Job {
 					Bounds: fmt.Sprintf("%d requests from a fresh breaker, each may overlap with nested requests (depth<=%d), symbolic clock gaps and latencies up to 2^41 ns, symbolic fallback/recovery/check durations in [1,2^40] ns, symbolic condition outcome per evaluation, symbolic response codes and ramp decisions", c.k, c.depth)})
 			}
 		}
+		add(&Job{Name: "O3-stalled-arrival", Pkg: "cbreaker", Harness: "VerifC05Stall", TimeoutS: 60, Bounds: stallBd})
 	case "C12":
 		A := 3
 		durs := []int{7, 1000000000, 10000000000, 3600000000000}
@@ -248,7 +255,12 @@ func jobsFor(prop, tier string) []*Job {
 		// (VerifC14SelfComp, the end-to-end self-composition through the rate limiter, is kept in
 		// the harness tree but not registered: 4 of its branch queries stay undecided at 120 s
 		// in every back end — see DESIGN.md section 9)
-		_, _ = k, nsrc
+		_ = nsrc
+		for pat := 0; pat < 7; pat++ { // bit i = source of request i (0 = A); pattern 7 has no request of A
+			add(&Job{Name: fmt.Sprintf("O1-lockstep/k=%d,pattern=%d", k, pat), Pkg: "ratelimit", Harness: "VerifC14LockStep", Grid: 1e9,
+				Params: p("k", k, "nsrc", 2, "capacity", 2, "average", 1, "burst", 2, "maxgap", 12, "t0span", 3, "srcpat", pat), TimeoutS: 120,
+				Bounds: fmt.Sprintf("self-composition in lock step through the real TokenLimiter (capacity 2, rate 1/s burst 2): %d requests whose sources follow bit pattern %d (bit i set = request i comes from B, else from A) with symbolic amounts 1..burst+1 and gaps up to 13 s (beyond the 11 s entry lifetime), against a second limiter that sees only A's requests at the same instants: same decisions, same status, same advertised delay", k, pat)})
+		}
 	case "C06", "C07", "C15":
 		Ls := []int{0, 2, 5}
 		if thorough {
@@ -290,6 +302,7 @@ func jobsFor(prop, tier string) []*Job {
 		add(&Job{Name: fmt.Sprintf("O2-metrics/k=%d", k), Pkg: "memmetrics", Harness: "VerifC18Metrics", Grid: 1e9, Params: p("k", k, "t0span", 40), TimeoutS: 120, MergeBlind: true,
 			Merge: map[string]bool{"(*github.com/vulcand/oxy/v2/memmetrics.RollingCounter).cleanup": true, "(*github.com/vulcand/oxy/v2/memmetrics.RollingCounter).incBucketValue": true},
 			Bounds: fmt.Sprintf("%d Record calls with symbolic status codes in [100,599] at one instant (symbolic within a window covering every bucket residue), then the ratios and Reset", k)})
+		add(&Job{Name: "O5-stalled-arrival", Pkg: "cbreaker", Harness: "VerifC05Stall", TimeoutS: 60, Bounds: stallBd})
 		add(&Job{Name: "O4-overlapping-completions", Pkg: "cbreaker", Harness: "VerifC18Overlap", TimeoutS: 60,
 			Bounds: "two concurrent requests from standby: the second runs to completion at any one lock boundary of the first (two-thread sequentialisation, one preemption, scheduling points = mutex acquire/release), symbolic clock movement, durations and condition outcomes: effects once per transition, one metrics reset per trip"})
 		for part := 0; part < 16; part++ {
